@@ -95,7 +95,7 @@ func (c *Config) resolve(prog *ssa.Program, to string) *ssa.Function {
 	return f
 }
 
-var DefaultInitAllow = []string{"io", "sort", "bytes", "encoding/binary", "strings", "unicode", "unicode/utf8", "math", "strconv", "bufio", "container/list", "container/heap", "encoding/hex", "regexp", "regexp/syntax", "time", "math/bits", "slices", "cmp", "maps", "hash", "hash/crc32", "encoding/csv", "path", "path/filepath", "context"}
+var DefaultInitAllow = []string{"io", "sort", "bytes", "encoding/binary", "strings", "unicode", "unicode/utf8", "math", "strconv", "bufio", "container/list", "container/heap", "encoding/hex", "regexp", "regexp/syntax", "time", "math/bits", "slices", "cmp", "maps", "hash", "hash/crc32", "encoding/csv", "path", "path/filepath", "context", "compress/flate", "compress/gzip"}
 
 type Violation struct {
 	Label     string            `json:"label"`
